@@ -281,6 +281,15 @@ def main():
             r['pts'] = pts
             r['nodes'] = nodes
             idx, vals = assemble.compute_initial_condition_01(kvs, geo, tuple(c['bdspec']), gfun(c['g0']), gfun(c['g1']))
+            # the interpolation coefficients of g0, g1 on the face (public interpolate), for the model of the 2x2 solve
+            from pyiga.approx import interpolate
+            bdbasis = list(kvs)
+            del bdbasis[ax]
+            bdgeo = geo.boundary((ax, side))
+            r['G0'] = [float(v).hex() for v in np.asarray(interpolate(bdbasis, gfun(c['g0']), geo=bdgeo)).ravel()]
+            r['G1'] = [float(v).hex() for v in np.asarray(interpolate(bdbasis, gfun(c['g1']), geo=bdgeo)).ravel()]
+            r['tknots'] = [float(t).hex() for t in kvs[ax].kv]
+            r['tp'] = int(kvs[ax].p)
             r['idx'] = np.asarray(idx).astype(int).tolist()
             r['vals'] = [float(v) for v in np.asarray(vals).ravel()]
             r['status'] = 'Ok'
